@@ -27,8 +27,8 @@ DirOK(op) == op \in DataOps => IF Sends THEN op \in {"DataQueued","DataSent"} EL
 ArgsFor(op) ==
   CASE op \in DataOps -> {[ZeroArgs EXCEPT !.delta = d, !.index = i, !.unique = u] : d \in {1, 2, 3}, i \in 1..5, u \in BOOLEAN}
     [] op \in ErrOps -> {[ZeroArgs EXCEPT !.err = e] : e \in {"e1","e2"}}
-    [] op = "NewVoucher" -> {[ZeroArgs EXCEPT !.v = x] : x \in {"v1","v3","v4"}}
-    [] op = "NewVoucherResult" -> {[ZeroArgs EXCEPT !.v = x] : x \in {"r1","r3","r5"}}
+    [] op = "NewVoucher" -> {[ZeroArgs EXCEPT !.v = x] : x \in {"v1","v3","v4","v6"}}
+    [] op = "NewVoucherResult" -> {[ZeroArgs EXCEPT !.v = x] : x \in {"r1","r3","r5","r6"}}
     [] op = "SetDataLimit" -> {[ZeroArgs EXCEPT !.limit = l] : l \in {0, 3, 6}}
     [] op = "SetRequiresFinalization" -> {[ZeroArgs EXCEPT !.flag = b] : b \in BOOLEAN}
     [] OTHER -> {ZeroArgs}
